@@ -30,6 +30,23 @@ THEOREMS_SEM = [
     "ProbLogProofs.C01.C01_wfm_two_valued_definite",
 ]
 
+# the first-order level of the specification: `SemFO.ground` (Lean) is the full Herbrand instantiation
+MODULE_FO = "ProbLogProofs.Properties.C01FO"
+THEOREMS_FO = [
+    "ProbLogProofs.C01FO.C01FO_ground_rules_spec",
+    "ProbLogProofs.C01FO.C01FO_ground_complete",
+    "ProbLogProofs.C01FO.C01FO_assignments_spec",
+    "ProbLogProofs.C01FO.C01FO_alternatives_spec",
+    "ProbLogProofs.C01FO.C01FO_vars_spec",
+    "ProbLogProofs.C01FO.C01FO_subst_spec",
+    "ProbLogProofs.C01FO.C01FO_atomId_injective",
+    "ProbLogProofs.C01FO.C01FO_herbrand_spec",
+    "ProbLogProofs.C01FO.C01FO_groups_spec",
+    "ProbLogProofs.C01FO.C01FO_group_probs",
+    "ProbLogProofs.C01FO.C01FO_choice_ids_disjoint",
+    "ProbLogProofs.C01FO.C01FO_choice_ids_bound",
+]
+
 MANIFEST = {
     "level": "proof",
     "technique": "Lean 4 specification of the distribution semantics (world enumeration + well-founded model) executed "
@@ -185,6 +202,7 @@ def run(ctx):
                 "compound node and at least one probabilistic choice")
     ctx.proof_phase(MODULE, THEOREMS)
     ctx.proof_phase(MODULE_SEM, THEOREMS_SEM, refutations=["ProbLogProofs.C01.C01_worklist_fuel_insufficient"])
+    ctx.proof_phase(MODULE_FO, THEOREMS_FO)
     # downstream of the grounder: evaluate(loaded d-DNNF) = weighted count over the consistent valuations of the acyclic
     # ground program (A17), cycle breaking = perfect model (A16), Clark = unique model (A10)
     ctx.proof_phase("ProbLogProofs.Properties.C10Bridge", ["ProbLogProofs.C10.C01_pipeline_downstream", "ProbLogProofs.C10.C01_pipeline_downstream_atoms",
@@ -240,18 +258,13 @@ def _run_rest(ctx):
                     {"kind": "corpus-regression"})
                 break
         ctx.count("corpus programs (F1 region, answered)", len(corpus))
-    lines, qis = [], []
-    for P in progs:
-        line, qinst = spine.sem_line(P)
-        lines.append(line)
-        qis.append(qinst)
-    outs = drv.run(lines)
+    # specification value: op SEMFO (Lean grounds the first-order program), cross-checked against reference+SEM
+    sems = semcheck.spec_batch(drv, progs)
     nfail = 0
     from lib import pmap
     work = pmap(run_both, [spine.to_src(P) for P in progs])
-    for P, out, qinst, (runs, nontrivial) in zip(progs, outs, qis, work):
+    for P, sem, (runs, nontrivial) in zip(progs, sems, work):
         src = spine.to_src(P)
-        sem = spine.parse_sem(out, qinst)
         if sem is None:
             ctx.count("skipped(too many worlds)")
             continue
@@ -273,8 +286,7 @@ def _run_rest(ctx):
         for tag, r in runs:
             for what, sig in check_program(ctx, P, src, sem, r, tag):
                 def still(c, tag=tag, sig=sig):
-                    l2, q2 = spine.sem_line(c)
-                    s2 = spine.parse_sem(drv.run([l2])[0], q2)
+                    s2 = semcheck.spec_batch(drv, [c])[0]
                     if s2 is None:
                         return False
                     src2 = spine.to_src(c)
